@@ -84,4 +84,41 @@ theorem flatMap_chunks_id {α} (n : Nat) (hn : 0 < n) (f : List α → List α) 
     rw [chunks_append n hn _ _ hc]
     simp [List.flatMap_cons, hf c hc, ih1, ih2]
 
+/-- all chunks of a list whose length is a multiple of `n` have length `n`; their images under a function that
+yields `m` elements per `n`-chunk add up to `m * k` elements -/
+theorem flatMap_chunks_length {α β} (n m : Nat) (hn : 0 < n) (f : List α → List β) (hf : ∀ c, c.length = n → (f c).length = m) :
+    ∀ (k : Nat) (l : List α), l.length = n * k → ((chunks n l).flatMap f).length = m * k ∧ ∀ c ∈ chunks n l, c.length = n
+  | 0, l, hl => by
+    have : l = [] := List.eq_nil_of_length_eq_zero (by omega)
+    subst this; simp [chunks_nil]
+  | k+1, l, hl => by
+    have hk : n * (k+1) = n * k + n := Nat.mul_succ n k
+    obtain ⟨c, rest, hlc, hc, hr⟩ : ∃ c rest, l = c ++ rest ∧ c.length = n ∧ rest.length = n * k :=
+      ⟨l.take n, l.drop n, (List.take_append_drop n l).symm, by rw [List.length_take]; omega, by rw [List.length_drop]; omega⟩
+    subst hlc
+    obtain ⟨ih1, ih2⟩ := flatMap_chunks_length n m hn f hf k rest hr
+    rw [chunks_append n hn _ _ hc]
+    constructor
+    · simp only [List.flatMap_cons, List.length_append, hf c hc, ih1]; rw [Nat.mul_succ]; omega
+    · intro c' hc'
+      rcases List.mem_cons.mp hc' with rfl | h
+      · exact hc
+      · exact ih2 c' h
+
+/-- chunking a concatenation of `m`-element blocks gives the blocks back -/
+theorem chunks_flatMap_map {α β} (m : Nat) (hm : 0 < m) (f : α → List β) : ∀ (l : List α), (∀ x ∈ l, (f x).length = m) →
+    chunks m (l.flatMap f) = l.map f
+  | [], _ => by simp [chunks_nil]
+  | x :: l, h => by
+    simp only [List.flatMap_cons, List.map_cons]
+    rw [chunks_append m hm _ _ (h x (by simp)), chunks_flatMap_map m hm f l (fun y hy => h y (by simp [hy]))]
+
+theorem flatMap_length_const {α β} (m : Nat) (f : α → List β) : ∀ (l : List α), (∀ x ∈ l, (f x).length = m) →
+    (l.flatMap f).length = m * l.length
+  | [], _ => by simp
+  | x :: l, h => by
+    simp only [List.flatMap_cons, List.length_append, List.length_cons, h x (by simp),
+      flatMap_length_const m f l (fun y hy => h y (by simp [hy]))]
+    rw [Nat.mul_succ]; omega
+
 end Qrl
